@@ -68,6 +68,16 @@ def crash_signature(prop, out, err, repo):
 
 
 # ----------------------------------------------------------------------------- one-shot execution of a plan (gate, minimise, replay)
+def _stack_limiter(kb):
+    """preexec_fn limiting the main-thread stack of the child (a swarm knob: a quarter of the runs use a small stack)."""
+    if not kb:
+        return None
+    import resource
+    def f():
+        resource.setrlimit(resource.RLIMIT_STACK, (kb * 1024, kb * 1024))
+    return f
+
+
 def exec_plan(bdir, plan, timeout=60, flavour_env=None, verbose=False):
     """Run one plan in a fresh process. Returns dict(kind='ok'|'crash'|'hang', hash, sigs[list], viol[list], out, err)."""
     os.makedirs(os.path.join(VERIF, "tmp"), exist_ok=True)
@@ -77,7 +87,7 @@ def exec_plan(bdir, plan, timeout=60, flavour_env=None, verbose=False):
     env = B.run_env(bdir, plan.get("xor", "sse2"), flavour_env)
     cmd = [os.path.join(bdir, "ecsim"), "exec", path] + (["-v"] if verbose else [])
     try:
-        p = subprocess.run(cmd, env=env, stdout=subprocess.PIPE, stderr=subprocess.PIPE, timeout=timeout)
+        p = subprocess.run(cmd, env=env, stdout=subprocess.PIPE, stderr=subprocess.PIPE, timeout=timeout, preexec_fn=_stack_limiter(plan.get("stack_kb")))
         out, err, rc = p.stdout.decode("latin1"), p.stderr.decode("latin1"), p.returncode
     except subprocess.TimeoutExpired as e:
         out = (e.stdout or b"").decode("latin1")
@@ -107,7 +117,8 @@ def exec_sequence(bdir, prop, tier, seed, start, step, count, timeout=180, flavo
     env = B.run_env(bdir, "portable" if (start & 1) else "sse2", flavour_env)
     cmd = [os.path.join(bdir, "ecsim"), "batch", prop, tier, str(seed), str(start), str(step), str(count), "600", "0"]
     try:
-        p = subprocess.run(cmd, env=env, stdout=subprocess.PIPE, stderr=subprocess.PIPE, timeout=timeout)
+        p = subprocess.run(cmd, env=env, stdout=subprocess.PIPE, stderr=subprocess.PIPE, timeout=timeout,
+                           preexec_fn=_stack_limiter(768 if (start & 3) == 2 and step % 4 == 0 else None))
     except subprocess.TimeoutExpired:
         return ["%s/?/hang" % prop], "timeout"
     out, err = p.stdout.decode("latin1"), p.stderr.decode("latin1")
@@ -194,7 +205,8 @@ class Batch:
             env = B.run_env(self.bdir, "portable" if (w & 1) else "sse2", self.flavour_env)
             cmd = [os.path.join(self.bdir, "ecsim"), "batch", self.prop, self.tier, str(self.seed), str(start), str(W),
                    str(remaining), "%.1f" % left, str(self.nsamples if w < 3 and start == w else 0)]
-            p = subprocess.Popen(cmd, env=env, stdout=subprocess.PIPE, stderr=subprocess.PIPE)
+            p = subprocess.Popen(cmd, env=env, stdout=subprocess.PIPE, stderr=subprocess.PIPE,
+                                 preexec_fn=_stack_limiter(768 if (start & 3) == 2 and W % 4 == 0 else None))
             errbuf = []
             et = threading.Thread(target=lambda: errbuf.append(p.stderr.read()), daemon=True)
             et.start()
